@@ -133,3 +133,33 @@ func runPool(c *Ctx) {
 	}
 	c.queue = nil
 }
+
+// runIsolatedOnce executes one case line in a fresh worker process (10 s budget): used by non-isolated families for
+// the few ops that may bring the whole process down (a fatal "concurrent map writes" cannot be recovered).
+func runIsolatedOnce(line string) string {
+	cmd := exec.Command(os.Args[0], "-worker")
+	in, _ := cmd.StdinPipe()
+	outp, _ := cmd.StdoutPipe()
+	if err := cmd.Start(); err != nil {
+		return "nostart"
+	}
+	io.WriteString(in, line+"\n")
+	in.Close()
+	ch := make(chan string, 1)
+	go func() {
+		s, _ := bufio.NewReaderSize(outp, 1<<20).ReadString('\n')
+		ch <- s
+	}()
+	var s string
+	select {
+	case s = <-ch:
+	case <-time.After(10 * time.Second):
+		s = ""
+	}
+	cmd.Process.Kill()
+	cmd.Wait()
+	if len(s) == 0 || s[len(s)-1] != '\n' {
+		return "crashed"
+	}
+	return s[:len(s)-1]
+}
